@@ -544,6 +544,7 @@ func c01Run(u *vfUnit) {
 		}
 	}
 	c01AfterShrink(u, e)
+	c01StreamLike(u, e)
 	if msg := e.sess.Close(); msg != "" {
 		u.Violation("session-close", cfg.String()+": "+msg, nil)
 	}
@@ -592,6 +593,52 @@ func c01AfterShrink(u *vfUnit, e *c01Env) {
 		}
 		if e.cfg.backend == 0 {
 			os.Remove(p)
+		}
+	}
+}
+
+// c01StreamLike (store backend): objects of every non-regular type, and without any type, larger than a packet,
+// whose reads come back short without being at the end; WriteTo and a Read loop must still deliver exactly the content.
+func c01StreamLike(u *vfUnit, e *c01Env) {
+	if e.cfg.backend != 1 || e.cfg.noSizes {
+		return
+	}
+	P := e.cfg.P
+	size := min(40*P+5, 300000)
+	defer func() { e.store.ShortAt = nil }()
+	for i, mode := range []os.FileMode{os.ModeSocket | 0o644, os.ModeNamedPipe | 0o644, os.ModeSymlink | 0o777, os.ModeIrregular | 0o644, os.ModeDevice | os.ModeCharDevice | 0o600, os.ModeDevice | 0o600} {
+		p := e.path(9100 + i)
+		content := vfPattern(uint64(7200+i), 0, size)
+		e.store.Put(p, content)
+		e.store.SetMode(p, mode)
+		e.store.ShortAt = func(path string, off int64, n int) int {
+			if path == p {
+				return max(1, min(n, P)/2)
+			}
+			return 0
+		}
+		label := fmt.Sprintf("%s | stream-like(%v) F=%d", e.cfg, mode, size)
+		f, err := e.sess.C.Open(p)
+		if err != nil {
+			u.Violation("open-failed", label+": "+err.Error(), nil)
+			return
+		}
+		var buf bytes.Buffer
+		var n int64
+		var werr error
+		if w, dump := vfAwait(vfGo(func() { n, werr = f.WriteTo(&buf) }), 120*time.Second); w != vfDone {
+			if w == vfStuck {
+				u.Violation("transfer-hangs:WriteTo", label+": WriteTo does not return\n"+vfTrim(dump, 2000), nil)
+			} else {
+				u.Inconclusive("%s: wall-clock cap", label)
+			}
+			return
+		}
+		f.Close()
+		u.Count("transfers", 1)
+		u.Eval(fmt.Sprintf("stream-like/%d/%v", i, e.cfg.cr))
+		if werr != nil || n != int64(size) || !bytes.Equal(buf.Bytes(), content) {
+			u.Violation("writeto-content:stream-like", fmt.Sprintf("%s: WriteTo returned (%d, %v) and delivered %d bytes; first difference at %d", label, n, werr, buf.Len(), vfFirstDiff(buf.Bytes(), content)), nil)
 		}
 	}
 }
